@@ -162,7 +162,7 @@ func (w *DocWriter) value(sb *strings.Builder, n *Node, owner *Node, term string
 			asMap := false
 			wrap := false
 			if child.Kind == "nlv" {
-				if len(child.List) > 1 || (w.ShapeFree && w.R.Intn(4) == 0 && !strings.HasPrefix(child.List[0].S, "-\x00")) {
+				if len(child.List) > 1 || (w.ShapeFree && w.R.Intn(4) == 0) {
 					name = k + "Map"
 					asMap = true
 					if len(child.List) == 1 {
@@ -221,7 +221,12 @@ func (w *DocWriter) value(sb *strings.Builder, n *Node, owner *Node, term string
 		if len(n.List) == 1 {
 			p := strings.SplitN(n.List[0].S, "\x00", 2)
 			if asMap {
-				w.object(sb, []member{{p[0], func(sb *strings.Builder) { w.String(sb, p[1]) }}})
+				// a lone text may carry a language tag in the document; in the JSON normal form a lone tag does not count
+				key := p[0]
+				if key == "-" {
+					key = []string{"fr", "en-GB", "de"}[len(p[1])%3]
+				}
+				w.object(sb, []member{{key, func(sb *strings.Builder) { w.String(sb, p[1]) }}})
 				return
 			}
 			w.String(sb, p[1])
